@@ -4697,3 +4697,58 @@ func c12R10(c *Ctx, r *Report) {
 	r.Check(ok, rule, fn.Name(), "the receiver exemption requires the receiver to be declared with the struct's type", where,
 		"any receiver symbol opens the private fields of whatever type it currently has: `type Either union { Counter, i32 }; fn (u: Either) Leak() -> i32 { if u is Counter { return u.secret; } return 0; }` — a method of Either reads Counter's private field through the narrowed receiver")
 }
+
+// ---- C02.R13: the native signed remainder does not trap for a divisor of -1 ----------------------------------------
+
+func init() {
+	lateInits = append(lateInits, func() {
+		props["C02"].Quick = append(props["C02"].Quick, c02R13)
+		props["C01"].Quick = append(props["C01"].Quick, c02R13)
+		props["C02"].Explanation += " (R13) the QBE emitBinary replaces the divisor of a signed `rem` under a comparison with -1 before it emits the instruction: MIN % -1 is 0 as on wasm, not a hardware trap."
+	})
+}
+
+func c02R13(c *Ctx, r *Report) {
+	const rule = "C02.R13"
+	r.Describe(rule, "qbe emitBinary: an if on `op == \"rem\"` precedes the emission of the operation; its body emits a comparison of the right operand with -1 and reassigns the variable that is emitted as the right operand")
+	fn := c.LookupFn(pkgQBE, "(*Generator).emitBinary")
+	if !r.Anchor(rule, fn != nil, "qbe.(*Generator).emitBinary") {
+		return
+	}
+	info := fn.Info()
+	ok := false
+	ast.Inspect(fn.Decl.Body, func(x ast.Node) bool {
+		ifs, isIf := x.(*ast.IfStmt)
+		if !isIf {
+			return true
+		}
+		be, isEq := isBinOp(ifs.Cond, token.EQL)
+		if !isEq {
+			return true
+		}
+		v := constOf(info, be.Y)
+		if v == nil || v.Kind() != constant.String || constant.StringVal(v) != "rem" {
+			return true
+		}
+		cmpMinusOne, reassigns := false, false
+		ast.Inspect(ifs.Body, func(y ast.Node) bool {
+			switch z := y.(type) {
+			case *ast.BasicLit:
+				if z.Kind == token.STRING && strings.Contains(z.Value, "-1") {
+					cmpMinusOne = true
+				}
+			case *ast.AssignStmt:
+				if z.Tok == token.ASSIGN && len(z.Lhs) == 1 && exprStr(z.Lhs[0]) == "right" {
+					reassigns = true
+				}
+			}
+			return true
+		})
+		if cmpMinusOne && reassigns {
+			ok = true
+		}
+		return true
+	})
+	r.Check(ok, rule, fn.Name(), "signed rem guards the divisor -1", c.pos(fn.Decl.Pos()),
+		"`rem` is emitted with the operands as they are: `fn rem(a: i32, b: i32) -> i32 { return a % b; }` called with (-2147483648, -1) dies with SIGFPE natively and yields 0 on wasm")
+}
